@@ -877,13 +877,13 @@ def below(k, k2):
     """is k2 a key that is re-derived when k is replaced (nested / prefixed / indexed keys under k)"""
     if k2.startswith(k + "__"):
         return True
-    if k == "model" and k2.startswith("model__"):
+    head, _, leaf = k.rpartition("__")
+    pre = head + "__" if head else ""
+    if leaf == "models" and k2.startswith(k + "_"):
         return True
-    if k == "models" and k2.startswith("models_"):
+    if leaf == "estimator" and k2.startswith(pre + "e_"):
         return True
-    if k == "estimator" and k2.startswith("e_"):
-        return True
-    if k == "clus" and k2.startswith("c_"):
+    if leaf == "clus" and k2.startswith(pre + "c_"):
         return True
     # `method` of a stacking/learner chain is a stored option, nothing below it
     return False
